@@ -9,7 +9,7 @@
   streamed polynomial is the reversed coefficient list.  The MSM buffer size does not occur: it only
   splits a sum into chunks.
 -/
-import PCV.Proofs.StreamKZG
+import PCV.Proofs.StreamKZGVerify
 import PCV.Props.Examples
 
 namespace PCV.C14
@@ -95,5 +95,75 @@ example : verify (⟨[3, 21], [5, 35, 43]⟩ : VK K) (Time.commit (CK.new (3 : K
 example : verify (⟨[3, 21], [5, 35, 43]⟩ : VK K) (Time.commit (CK.new (3 : K) 5 7 6 2) [4, 9, 2, 77, 5])
     11 (95 + 1) 72 = .ok false := by decide
 example : (3 : K) ≠ 0 ∧ (5 : K) ≠ 0 ∧ (1 : K) ≠ 0 := by decide
+
+/-! ### multi-point / multi-polynomial openings -/
+
+/-- **`CommitterKeyStream::open_multi_points` returns the proof of `CommitterKey::open_multi_points`**:
+the sliding-window division of the stream and the schoolbook division of the coefficient vector by
+the vanishing polynomial commit to the same quotient — for EVERY coefficient list (shorter than the
+point set, with zero leading coefficients, …), every non-empty point list (distinct or not) and
+every key (any G1 list) with at least as many elements as coefficients. -/
+theorem space_open_multi_points_eq_time (ck : CK F) (p pts : List F) (hm : 1 ≤ pts.length)
+    (hL : p.length ≤ ck.powersOfG.length) :
+    ∃ r, Space.openMultiPoints (CKS.ofTime ck) p.reverse pts = .ok r
+      ∧ Time.openMultiPoints ck p pts = .ok r.2 :=
+  SKZG.space_openMulti_proof_eq_time ck p pts hm hL
+
+/-- **The remainder the streaming prover returns** has one entry per point and, read as a
+big-endian polynomial, takes the value `p(a)` at every evaluation point `a` (it is `p mod Z`; the
+time-efficient prover returns no remainder). -/
+theorem space_open_multi_points_remainder (ck : CK F) (p pts : List F) (hm : 1 ≤ pts.length)
+    (hL : p.length ≤ ck.powersOfG.length) (r : List F × F)
+    (h : Space.openMultiPoints (CKS.ofTime ck) p.reverse pts = .ok r) :
+    r.1.length = pts.length ∧ ∀ a ∈ pts, evalPoly r.1.reverse a = evalPoly p a :=
+  SKZG.space_openMulti_remainder ck p pts hm hL r h
+
+/-- **Completeness of `verify_multi_points`.** Key made by `CommitterKey::new(D, m)` with `m ≤ D`,
+at most `m` distinct points, a non-empty list of polynomials with at most `D+1` coefficients, any
+batching challenge `η`: the batched proof of `batch_open_multi_points` is accepted together with the
+commitments of `batch_commit` and the true evaluations — by the verifier key derived from the
+committer key and by the one derived from the stream key. -/
+theorem verify_multi_points_complete (g g2 τ : F) (D m : Nat) (ps : List (List F)) (pts : List F)
+    (η π : F) (hps : ps ≠ []) (hlen : ∀ p ∈ ps, p.length ≤ D + 1) (hnd : pts.Nodup)
+    (hm : pts.length ≤ m) (hD : m ≤ D)
+    (hπ : Time.batchOpenMultiPoints (CK.new g g2 τ D m) ps pts η = .ok π) (vk : VK F)
+    (hvk : VK.ofTime (CK.new g g2 τ D m) = .ok vk
+      ∨ VK.ofSpace (CKS.ofTime (CK.new g g2 τ D m)) = .ok vk) :
+    verifyMultiPoints vk (Time.batchCommit (CK.new g g2 τ D m) ps) pts
+      (ps.map (fun p => pts.map (evalPoly p))) π η = .ok true :=
+  SKZG.verifyMulti_new_complete g g2 τ D m ps pts η π hps hlen hnd hm hD hπ vk hvk
+
+/-- **`verify_multi_points` decides exactly the claim.** Same setting, arbitrary claimed evaluation
+vectors (one per polynomial): accepted iff `g·g2·(I_claimed(τ) − I_true(τ)) = 0`, where `I` is the
+η-combination of the Lagrange interpolants of the evaluation vectors over the points
+(`SKZG.interpAt`).  (`I_claimed − I_true` is a polynomial of degree `< m` in `τ`; it is the zero
+polynomial only if the η-combinations of the claimed and true vectors coincide.) -/
+theorem verify_multi_points_iff (g g2 τ : F) (D m : Nat) (ps : List (List F)) (pts : List F)
+    (claimed : List (List F)) (η π : F) (hps : ps ≠ []) (hlen : ∀ p ∈ ps, p.length ≤ D + 1)
+    (hnd : pts.Nodup) (hm : pts.length ≤ m) (hD : m ≤ D) (hcl : claimed.length = ps.length)
+    (hπ : Time.batchOpenMultiPoints (CK.new g g2 τ D m) ps pts η = .ok π) (vk : VK F)
+    (hvk : VK.ofTime (CK.new g g2 τ D m) = .ok vk
+      ∨ VK.ofSpace (CKS.ofTime (CK.new g g2 τ D m)) = .ok vk) :
+    verifyMultiPoints vk (Time.batchCommit (CK.new g g2 τ D m) ps) pts claimed π η = .ok true
+      ↔ g * g2 * (interpAt pts claimed η τ
+          - interpAt pts (ps.map (fun p => pts.map (evalPoly p))) η τ) = 0 :=
+  SKZG.verifyMulti_new_iff g g2 τ D m ps pts claimed η π hps hlen hnd hm hD hcl hπ vk hvk
+
+example : Space.openMultiPoints (CKS.ofTime (CK.new (3 : K) 5 7 8 3)) ([4, 9, 2, 77, 5] : List K).reverse
+    [2, 3, 10] = .ok ([83, 79, 34], 56) := by decide
+-- (`decide +kernel`: the field inverse of `ZMod 101` is evaluated by the kernel)
+example : Time.openMultiPoints (CK.new (3 : K) 5 7 8 3) [4, 9, 2, 77, 5] [2, 3, 10] = .ok 56 := by
+  decide +kernel
+example : Space.openMultiPoints (CKS.ofTime (CK.new (3 : K) 5 7 8 3)) ([4, 9] : List K).reverse
+    [2, 3, 10] = .ok ([0, 9, 4], 0) := by decide
+example : Time.batchOpenMultiPoints (CK.new (3 : K) 5 7 8 3) [[4, 9, 2, 77, 5], [1, 0, 6, 8, 0, 0]]
+    [2, 3, 10] 13 = .ok 65 := by decide +kernel
+example : VK.ofSpace (CKS.ofTime (CK.new (3 : K) 5 7 8 3)) = .ok ⟨[3, 21, 46], [5, 35, 43, 99]⟩ := by
+  decide
+example : verifyMultiPoints (⟨[3, 21, 46], [5, 35, 43, 99]⟩ : VK K) [98, 27] [2, 3, 10]
+    [[19, 8, 34], [89, 69, 16]] 65 13 = .ok true := by decide +kernel
+example : verifyMultiPoints (⟨[3, 21, 46], [5, 35, 43, 99]⟩ : VK K) [98, 27] [2, 3, 10]
+    [[19, 8, 34], [89, 70, 16]] 65 13 = .ok false := by decide +kernel
+example : ([2, 3, 10] : List K).Nodup := by decide
 
 end PCV.C14
